@@ -131,7 +131,8 @@ function getPrepareStackTrace (originalPrepareStackTrace) {
         }
         const { path, line, column } = getSourcePathAndLineFromSourceMaps(filename, originalLine, originalColumn)
         if (path !== filename || line !== originalLine || column !== originalColumn) {
-          return stackFrame.replace(`${filename}:${originalLine}:${originalColumn}`, `${path}:${line}:${column}`)
+          // a replacer function: a path may contain `$&`, `$'` or `$$`, which are patterns in a replacement string
+          return stackFrame.replace(`${filename}:${originalLine}:${originalColumn}`, () => `${path}:${line}:${column}`)
         }
         return stackFrame
       })
